@@ -17,6 +17,9 @@ import (
 	"golang.org/x/tools/go/ssa"
 )
 
+// sliceData models the result of unsafe.SliceData / unsafe.StringData.
+type sliceData struct{ s []value }
+
 // If the target program panics, the interpreter panics with this type.
 type targetPanic struct {
 	v value
@@ -1021,6 +1024,49 @@ func callBuiltin(caller *frame, callpos token.Pos, fn *ssa.Builtin, args []value
 		os.Stderr.Write(buf.Bytes())
 		return nil
 
+	case "SliceData": // unsafe.SliceData: modelled as a handle on the slice
+		return sliceData{args[0].([]value)}
+	case "StringData":
+		return sliceData{toSstr(args[0]).b}
+	case "String": // unsafe.String(ptr, len)
+		sd, ok := args[0].(sliceData)
+		if !ok {
+			unsupported("unsafe.String on a pointer that does not come from unsafe.SliceData")
+		}
+		n := asInt64(args[1])
+		return bytesToStringValue(sd.s[:n])
+	case "Slice": // unsafe.Slice(ptr, len)
+		sd, ok := args[0].(sliceData)
+		if !ok {
+			unsupported("unsafe.Slice on a pointer that does not come from unsafe.SliceData/StringData")
+		}
+		n := asInt64(args[1])
+		return append([]value(nil), sd.s[:n]...)
+
+	case "clear":
+		switch x := args[0].(type) {
+		case []value:
+			if len(x) > 0 {
+				et := fn.Type().(*types.Signature).Params().At(0).Type().Underlying().(*types.Slice).Elem()
+				for i := range x {
+					x[i] = zero(et)
+				}
+			}
+		case map[value]value:
+			caller.noteMapWrite(x, "*")
+			for k := range x {
+				delete(x, k)
+			}
+		case *hashmap:
+			if x != nil {
+				x.table = map[int]*entry{}
+				x.length = 0
+			}
+		default:
+			panic(engineBug{fmt.Sprintf("clear: illegal operand: %T", x)})
+		}
+		return nil
+
 	case "len":
 		switch x := args[0].(type) {
 		case string:
@@ -1124,7 +1170,7 @@ func callBuiltin(caller *frame, callpos token.Pos, fn *ssa.Builtin, args []value
 		return &caller.defers
 	}
 
-	panic("unknown built-in: " + fn.Name())
+	panic(engineBug{"unknown built-in: " + fn.Name()})
 }
 
 func rangeIter(fr *frame, x value, t types.Type) iter {
